@@ -341,6 +341,8 @@ def for_loop(it, st, fr):
     tnames = set()
     _target_names(st.target, tnames)
     havoc_state(it, fr, spec, (a | a2) - tnames, m | m2, extra_frames=sink_frames(it))
+    if spec.on_havoc is not None:
+        spec.on_havoc(it, fr)
     i = it.fresh(ivar.strip("_") or "i", "Int")
     it.ctx.assume(And(smt.Cmp("<=", lo, i), smt.Cmp("<=", i, hi)))
     for fn in list(it.ctx.univ):
